@@ -7,6 +7,18 @@ pair, a set of integer instants.  Everything the library can be asked is recompu
 import copy
 
 
+def snap(x):
+    """Structural copy: containers are copied, everything else is kept by reference (copy.deepcopy would
+    clone or refuse identity-valued attribute values)."""
+    if isinstance(x, dict):
+        return {k: snap(v) for k, v in x.items()}
+    if isinstance(x, list):
+        return [snap(v) for v in x]
+    if isinstance(x, tuple):
+        return tuple(snap(v) for v in x)
+    return x
+
+
 def runs_of(instants):
     """Canonical sorted, disjoint, non-adjacent closed intervals of a set of ints."""
     out = []
@@ -48,7 +60,7 @@ class Ref:
         if n not in self.nodes:
             self.nodes[n] = {}
         if attrs:
-            self.nodes[n].update(copy.deepcopy(attrs))
+            self.nodes[n].update(snap(attrs))
 
     # ------------------------------------------------------------------ updates
     def latest_run(self, key):
@@ -238,7 +250,7 @@ class Ref:
         import networkx as nx
         g = nx.DiGraph() if self.directed else nx.Graph()
         for n, a in self.nodes.items():
-            g.add_node(n, **copy.deepcopy(a))
+            g.add_node(n, **snap(a))
         for (u, v) in self.E(t):
             g.add_edge(u, v)
         return g
@@ -247,7 +259,7 @@ class Ref:
         """An independent copy that keeps the node ids themselves (ids may be objects that are equal only
         to themselves; deep-copying them would produce different ids)."""
         r = Ref(self.directed, self.removal)
-        r.nodes = {n: copy.deepcopy(a) for n, a in self.nodes.items()}
+        r.nodes = {n: snap(a) for n, a in self.nodes.items()}
         r.graph = copy.deepcopy(self.graph)
         r.pres = {k: set(v) for k, v in self.pres.items()}
         r.first = dict(self.first)
